@@ -55,6 +55,9 @@ class HookScript:
                 raise RuntimeError('scripted hook failure %s' % self.hname)
             return what == 'true'
         if self.outcome == 'raise':
+            # alternately with and without a message (`raise RuntimeError`, a failing assert)
+            if sum(self.world.hook_calls.values()) % 2:
+                raise RuntimeError()
             raise RuntimeError('scripted hook failure %s' % self.hname)
         if self.outcome.startswith('true+'):
             # a hook that takes (virtual) time, e.g. a health probe: 'true+0.1'
